@@ -26,7 +26,7 @@ CLASSES = ["wrong-name", "wrong-regexp", "invalid-regexp", "wrong-kind", "locati
 
 
 def plan(tier):
-    return {"n": 300 if tier == "quick" else 6000, "floor": 70 if tier == "quick" else 1500}
+    return {"n": 300 if tier == "quick" else 1200, "floor": 70 if tier == "quick" else 300}
 
 
 def rule(tier):
